@@ -284,11 +284,15 @@ Inductive path :=
 | PEndpoint (t : tr)                  (* AsyncStreamEndpoint.aclose() *)
 | PClient (t : tr)                    (* AsyncTCPNetworkClient.aclose() *)
 | PApi (t : tr)                       (* _ConnectedClientAPI.aclose() *)
-| PTaskExit (t : tr) (inner : bool).  (* client task teardown; inner: the handler called client.aclose() first *)
+| PTaskExit (t : tr) (inner : bool)   (* client task teardown; inner: the handler called client.aclose() first *)
+| PClientConnecting (t : tr).         (* AsyncTCPNetworkClient.aclose() while the connection is still being established by
+                                         a send_packet() that holds the send lock: the connector scope is cancelled FIRST,
+                                         the attempt is aborted and force-closes its transport, the sender fails and
+                                         releases the lock, which aclose() then takes without waiting; no endpoint exists *)
 
 Definition path_tr (p : path) : tr :=
   match p with
-  | PTransport t | PForceful t | PEndpoint t | PClient t | PApi t | PTaskExit t _ => t
+  | PTransport t | PForceful t | PEndpoint t | PClient t | PApi t | PTaskExit t _ | PClientConnecting t => t
   | PWrap c b => TTls c b
   end.
 
@@ -301,6 +305,7 @@ Definition run_path (p : path) : M :=
   | PClient t => client_aclose t
   | PApi t => api_aclose t
   | PTaskExit t inner => client_task_exit (if inner then api_aclose t else (fun _ w ls => (ROk, w, ls))) t
+  | PClientConnecting t => forceful (tr_aclose t)
   end.
 
 Definition env0 : env := {| e_forced := false; e_timed := false |}.
